@@ -79,6 +79,64 @@ class ValueGen:
             return self.rng.choice(self.legacy_by_qt[b[0]])
         return self.rng.choice(us)
 
+    def g_peer(self, sim, sym):
+        """An operation that has to call the caller-supplied conversion functions of unit `sym`."""
+        rng = self.rng
+        u, _ = _barril()
+        qt = [d["qt"] for d in self.dyn_units if d["sym"] == sym][0]
+        b = self.basis_for_qt(qt)
+        if b is None:
+            return None
+        mine = sim.live(lambda v: isinstance(v, (u.Scalar, u.Array)) and M.is_simple_known(v) and v.GetUnit() == sym)
+        if not mine or rng.random() < 0.2:
+            r = rng.random()
+            if r < 0.4:
+                return self.op("mk.Scalar.vuc", "Scalar", "()", [self.value(), sym, self.cat_of(b)])
+            if r < 0.8:
+                return self.op("mk.Array.Vu", "Array", "()", [self.container(rng.choice([2, 3, 4])), sym])
+            return self.op("mk.FixedArray.dVu", "FixedArray", "()", [3, self.container(3, kinds=("L", "T", "N")), sym])
+        x = rng.choice(mine)
+        other = rng.choice([w for w in b[1] if w != sym] or list(b[1]))
+        arm = rng.random() < 0.6
+        form = rng.choice(["get", "get", "copy", "add", "radd", "dbconv", "changing", "valid", "fmt"])
+        isarr = isinstance(x[1], u.Array)
+        if form == "get":
+            o = self.op("cv.GetValues" if isarr else "cv.GetValue", ref(x[0]), "GetValues" if isarr else "GetValue", [other])
+        elif form == "copy":
+            o = self.op("cv.CreateCopy.unit", ref(x[0]), "CreateCopy", [], kw={"unit": other})
+        elif form in ("add", "radd"):
+            fam = u.Array if isarr else u.Scalar
+            ps = sim.live(lambda v: isinstance(v, fam) and (isarr or not isinstance(v, u.Array)) and M.is_simple_known(v) and v.GetQuantityType() == qt and v.GetUnit() != sym and (not isarr or _len(v) == _len(x[1])))
+            if not ps:
+                return self.op("mk.Array.Vu", "Array", "()", [self.container(max(_len(x[1]), 0)), other]) if isarr else self.op("mk.Scalar.vu", "Scalar", "()", [self.value(), other])
+            y = rng.choice(ps)
+            opn = rng.choice(["add", "sub"])
+            o = self.op("ar.obj." + opn, "py", opn, [ref(x[0]), ref(y[0])] if form == "add" else [ref(y[0]), ref(x[0])])
+        elif form == "dbconv":
+            o = self.op("cv.db.Convert.container", "db", "Convert", [qt, sym, other, self.container(rng.choice([2, 3]), kinds=("L", "T", "N"))] if rng.random() < 0.5 else [qt, other, sym, self.container(rng.choice([2, 3]), kinds=("L", "T", "N"))])
+        elif form == "changing":
+            fas = [m for m in mine if isinstance(m[1], u.FixedArray)]
+            if not fas:
+                return self.op("mk.FixedArray.dVu", "FixedArray", "()", [3, self.container(3, kinds=("L", "T", "N")), sym])
+            fa = rng.choice(fas)
+            o = self.op("fixed.ChangingIndex", ref(fa[0]), "ChangingIndex", [rng.randrange(0, fa[1].dimension), {"T": [self.value(), other]}], kw={"use_value_unit": rng.choice([True, False])})
+            o["x"] = [{"o": "changing_index", "p": "C11", "id": "C11.changing_index"}]
+        elif form == "valid":
+            o = self.op("val.CheckValidity", ref(x[0]), "CheckValidity", [])
+        else:
+            if isarr:
+                o = self.op("fmt.str", "py", "str", [ref(x[0])])
+            else:
+                o = self.op("fmt.GetFormatted.unit", ref(x[0]), "GetFormatted", [other])
+        if arm:
+            o["peer"] = rng.choice([1, 1, 2, 2, 3, 4])
+            o["f"] = "F2.peer_exception"
+        return o
+
+    def peer_units_live(self):
+        db = _db_now()
+        return [d["sym"] for d in self.dyn_units if d.get("callable") and db.GetQuantityType(d["sym"]) == d["qt"]]
+
     def cat_of(self, b):
         cs = list(b[2]) + [c for c, q in self.limited if q == b[0]]
         if self.dyn_cats:
@@ -204,6 +262,24 @@ class ValueGen:
             op["i"] = self.i
             self.i += 1
             return op
+        if self.dyn_units and self.cfg.get("peer_rate", 0) > 0:
+            # F2 workload: get the caller-supplied unit registered early, then keep converting
+            # objects expressed in it (some of those calls have the n-th peer invocation fail)
+            live = self.peer_units_live()
+            op = None
+            if not live and self.n <= 3 and any(d.get("callable") for d in self.dyn_units):
+                d = [x for x in self.dyn_units if x.get("callable")][0]
+                if _db_now().GetQuantityType(d["sym"]) is None:
+                    op = self.op("reg.AddUnit.new_callable", "db", "AddUnit", [d["qt"], d["name"], d["sym"], {"call": "div:%r" % d["k"]}, {"call": "mul:%r" % d["k"]}])
+                    op["c"] = "registrar"
+            elif live and rng.random() < 2.0 * self.cfg["peer_rate"]:
+                op = self.g_peer(sim, rng.choice(live))
+                if op is not None:
+                    op["c"] = "calculator"
+            if op is not None:
+                op["i"] = self.i
+                self.i += 1
+                return op
         for _attempt in range(40):
             client = rng.choices(self.clients, weights=self.cweights)[0]
             fam = rng.choice(CLIENT_FAMILIES[client])
@@ -222,6 +298,16 @@ class ValueGen:
             ):
                 op["intr"] = int(min(400, max(1, rng.expovariate(1.0 / self.cfg.get("intr_mean", 40)))))
                 op["f"] = "F7.interrupt"
+            elif (
+                not op.get("f")
+                and self.cfg.get("peer_rate", 0) > 0
+                and not op["k"].startswith(("curve.set", "caller.", "reg."))
+                and rng.random() < self.cfg["peer_rate"]
+                and self.peer_units_live()
+            ):
+                # F2: the n-th invocation of a caller-supplied conversion function inside this call raises
+                op["peer"] = rng.choice([1, 1, 2, 3, 5])
+                op["f"] = "F2.peer_exception"
             op["c"] = client
             op["i"] = self.i
             self.i += 1
@@ -983,6 +1069,9 @@ class ValueGen:
             if not todo:
                 return None
             d = rng.choice(todo)
+            if d.get("callable"):
+                # conversion functions supplied by the caller (peers owned by the simulator: F2)
+                return self.op("reg.AddUnit.new_callable", "db", "AddUnit", [d["qt"], d["name"], d["sym"], {"call": "div:%r" % d["k"]}, {"call": "mul:%r" % d["k"]}])
             return self.op("reg.AddUnit.new", "db", "AddUnit", [d["qt"], d["name"], d["sym"], "%%f / %r" % d["k"], "%%f * %r" % d["k"]])
         if form in ("cat_override", "cat_retype"):
             db = _db_now()
